@@ -606,3 +606,128 @@ def incremental(case, spec=("raw",)):
     build_history(case, [[i] for i in range(len(case["attempts"]))], temp_ext=temp)
     case["faults"] = list(case["faults"]) + ["incremental"]
     return case
+
+
+# ---------------------------------------------------------------------------- re-entrant executions
+# A case may carry "reenter": [{"module", "depth", "target": "same"|"other", "ext_mode", "flip_enforce"}]: while the
+# handler of <module> is running inside an execution at nesting depth <depth>, it starts a further execution of the same
+# diagram - on the same executor or on a second executor built over the same diagram - with external inputs of its own.
+# Every execution (outer and nested) is analysed and judged separately by the same obligations.
+EXT_MODES = ["same", "raw", "exact", "top", "drop", "bad"]
+
+
+def nested_ext(view, mode, dtypes, labels):
+    """External inputs of a nested execution, derived deterministically from those of the surrounding phase.
+    This only generates a workload; what the nested execution must do with it is decided by analyze()."""
+    mods = mod_index(view)
+    out = {m: dict(ps) for m, ps in view["ext"].items()}
+    known = [(m, p) for m in sorted(out) if m in mods for p in sorted(out[m]) if p in mods[m]["inputs"]]
+    if mode in ("raw", "exact", "top"):
+        for m, p in known:
+            dt, req = mods[m]["inputs"][p]
+            out[m][p] = ["raw"] if mode == "raw" else ["tv", dt, req if mode == "exact" else labels[-1]]
+    elif mode == "drop" and known:
+        m, p = known[0]
+        del out[m][p]
+        if not out[m]:
+            del out[m]
+    elif mode == "bad" and known:
+        for m, p in known:
+            dt, req = mods[m]["inputs"][p]
+            lower = [l for l in labels if l < req]
+            if lower:
+                out[m][p] = ["tv", dt, lower[0]]
+                break
+        else:
+            m, p = known[0]
+            dt, req = mods[m]["inputs"][p]
+            out[m][p] = ["tv", [d for d in dtypes if d != dt][0], req]
+    return out
+
+
+def add_reentry(case, rng):
+    """Script 1-3 re-entry points into a case (in place). Returns True if any was added."""
+    names = sorted(set(case["handlers"]) | {n for ph in case.get("phases") or [] for n in ph["handlers"]})
+    if not names:
+        return False
+    entries = []
+
+    def entry(depth):
+        return {"module": rng.choice(names), "depth": depth, "target": "same" if rng.random() < 0.65 else "other",
+                "ext_mode": rng.choice(["same", "same", "same", "raw", "exact", "top", "drop", "drop", "bad"]),
+                "flip_enforce": rng.random() < 0.15}
+
+    for _ in range(1 if rng.random() < 0.7 else 2):
+        entries.append(entry(0))
+    if rng.random() < 0.3:
+        entries.append(entry(1))
+    case["reenter"] = entries
+    case["faults"] = list(case["faults"]) + ["re-entrant"]
+    return True
+
+
+def reentry_all(case, target, depth2=False):
+    """Sweep helper: every module with a handler re-enters once from the outermost execution."""
+    names = [m["name"] for m in case["modules"]] + [m["name"] for ph in case.get("phases") or [] for m in ph["modules"]]
+    hs = set(case["handlers"]) | {n for ph in case.get("phases") or [] for n in ph["handlers"]}
+    case["reenter"] = [{"module": n, "depth": 0, "target": target, "ext_mode": "same", "flip_enforce": False}
+                       for n in names if n in hs]
+    if depth2 and case["reenter"]:
+        case["reenter"].append(dict(case["reenter"][-1], depth=1))
+    case["faults"] = list(case["faults"]) + ["re-entrant"]
+    return case
+
+
+def reentry_one(case, module, target, ext_mode="same", depth=0):
+    case.setdefault("reenter", []).append({"module": module, "depth": depth, "target": target, "ext_mode": ext_mode,
+                                           "flip_enforce": False})
+    if "re-entrant" not in case["faults"]:
+        case["faults"] = list(case["faults"]) + ["re-entrant"]
+    return case
+
+
+# ---------------------------------------------------------------------------- capabilities over diagrams that share specs
+# capshare case: {"sets": [[cap, ...], ...]            capability-set OBJECTS that several specs are built from,
+#                 "specs": [{"name", "set": index | None, "caps": [...] (own fresh set when "set" is None)}],
+#                 "ndiagrams": k,
+#                 "ops": [["add", d, spec_index] | ["query", d], ...]}
+def gen_capshare(rng, caps):
+    nsets = rng.randint(1, 4)
+    sets = [sorted(rng.sample(caps, rng.choice([0, 1, 1, 2, 2, 3]))) for _ in range(nsets)]
+    nspecs = rng.randint(2, 7)
+    nnames = rng.randint(2, nspecs)
+    specs = []
+    for j in range(nspecs):
+        name = "s%d" % (j if j < nnames else rng.randrange(nnames))
+        r = rng.random()
+        if r < 0.6:
+            specs.append({"name": name, "set": rng.randrange(nsets), "caps": None})
+        elif r < 0.8:      # equal content, distinct object
+            specs.append({"name": name, "set": None, "caps": list(rng.choice(sets))})
+        else:
+            specs.append({"name": name, "set": None, "caps": sorted(rng.sample(caps, rng.choice([0, 1, 2, 3])))})
+    nd = rng.randint(2, 5)
+    ops = []
+    for _ in range(rng.randint(6, 24)):
+        d = rng.randrange(nd)
+        if rng.random() < 0.5:
+            ops.append(["add", d, rng.randrange(nspecs)])
+        else:
+            ops.append(["query", d])
+            if rng.random() < 0.25:
+                ops.append(["query", d])
+    for _ in range(2):
+        order = list(range(nd))
+        rng.shuffle(order)
+        ops.extend(["query", d] for d in order)
+    return {"sets": sets, "specs": specs, "ndiagrams": nd, "ops": ops}
+
+
+def capshare_sweep(x, y, perm):
+    """Two capability-set objects X, Y; A and C are built from the same X object, A2 from an equal copy; diagrams
+    [A,B], [A], [C], [B,A], [A2] are all queried in the order `perm`, then in the reverse order."""
+    specs = [{"name": "a", "set": 0, "caps": None}, {"name": "b", "set": 1, "caps": None},
+             {"name": "c", "set": 0, "caps": None}, {"name": "a", "set": None, "caps": list(x)}]
+    ops = [["add", 0, 0], ["add", 0, 1], ["add", 1, 0], ["add", 2, 2], ["add", 3, 1], ["add", 3, 0], ["add", 4, 3]]
+    ops += [["query", d] for d in perm] + [["query", d] for d in reversed(perm)]
+    return {"sets": [list(x), list(y)], "specs": specs, "ndiagrams": 5, "ops": ops}
